@@ -1187,9 +1187,13 @@ class Program:
         self.bodies = {}
         raw_by_path = {r['path']: r for r in facts['bodies']}
         known = load_known_functions()
+        raw_by_path, spliced = expand_combinators(raw_by_path)
         merged, used = inline_helpers(raw_by_path, known)
         self.inlined_helpers = sorted(used)
+        self.spliced_closures = sorted(spliced)
         for path, raw in merged.items():
+            if path in spliced:
+                continue   # closure body now lives inside its creator
             if path in used:
                 # a helper that was merged into its callers: keep it only if something still calls it directly
                 still = any(_call_target_path(bl['term']) == path for r2 in merged.values() for bl in r2['blocks'] if bl['term']['k'] == 'call')
@@ -1685,6 +1689,15 @@ def canon(e, keep_casts=True, _d=0, labels=None):
             return canon(e[2][0], keep_casts, d)
         if m == 'index' and len(e[2]) == 2:
             return '%s[%s]' % (canon(e[2][0], keep_casts, d), canon(e[2][1], keep_casts, d))
+        # format!("{}", x) is x.to_string() (ToString is implemented through Display)
+        if m == 'format' and len(e[2]) == 1:
+            a = peel(e[2][0], calls=False)
+            if a[0] == 'call' and method_name(a[1]) == 'new' and 'Arguments' in a[1] and len(a[2]) == 2:
+                tb, arr = peel(a[2][0]), peel(a[2][1])
+                if tb[0] == 'bytes' and tb[1] == b'\xc0\x00' and arr[0] == 'aggr' and arr[1] == 'array' and len(arr[3]) == 1:
+                    one = peel(arr[3][0][1], calls=False)
+                    if one[0] == 'call' and method_name(one[1]) == 'new_display' and one[2]:
+                        return canon(('call', 'std::string::ToString::to_string', (one[2][0],), e[3] if len(e) > 3 else None), keep_casts, d)
         # equivalent spellings of a floored subtraction on unsigned integers
         if m in ('unwrap_or_default', 'unwrap_or') and e[2]:
             inner = peel(e[2][0], calls=False)
@@ -2111,3 +2124,308 @@ def _targets_of(t):
     if k in ('call', 'assert', 'drop'):
         return [t['target']] if t.get('target') is not None else []
     return []
+
+
+# ------------------------------------------------------------------------------------------
+# Expansion of closure-taking std combinators into plain control flow (before helper inlining).
+#   it.for_each(f)            ==  for x in it { f(x) }
+#   it.map(g).for_each(f)     ==  for x in it { f(g(x)) }          (map/filter adaptors directly feeding a consumer)
+#   it.try_for_each(f)        ==  for x in it { f(x)? }  Ok(())
+#   it.all(p) / it.any(p)     ==  the short-circuiting loop
+#   opt.is_some_and(p)        ==  match opt { Some(x) => p(x), None => false }
+#   opt.map_or(d, f)          ==  match opt { Some(x) => f(x), None => d }
+# These are the definitions in core. With the closure bodies spliced in, a rule sees the same CFG, guards and
+# provenance whether the code is written with a loop/match or with the combinator.
+
+_ITER_CONSUMERS = {'std::iter::Iterator::for_each': 'for_each', 'std::iter::Iterator::try_for_each': 'try_for_each',
+                   'std::iter::Iterator::all': 'all', 'std::iter::Iterator::any': 'any'}
+_OPT_COMBINATORS = {'std::option::Option::<T>::is_some_and': 'is_some_and', 'std::option::Option::<T>::map_or': 'map_or'}
+_ITER_ADAPTORS = {'std::iter::Iterator::map': 'map', 'std::iter::Iterator::filter': 'filter'}
+
+
+class _Builder:
+    def __init__(self, raw):
+        self.raw = raw
+
+    def local(self, ty):
+        self.raw['locals'].append({'ty': ty, 'mut': True, 'synthetic': True})
+        return len(self.raw['locals']) - 1
+
+    def block(self, stmts=None, term=None):
+        self.raw['blocks'].append({'stmts': stmts or [], 'term': term})
+        return len(self.raw['blocks']) - 1
+
+    @staticmethod
+    def place(l, ty='', proj=None):
+        return {'l': l, 'p': proj or [], 'ty': ty}
+
+    @staticmethod
+    def assign(place, rv, span):
+        return {'k': 'assign', 'place': place, 'rv': rv, 'span': span}
+
+    @staticmethod
+    def mv(l, ty='', proj=None):
+        return {'k': 'move', 'place': {'l': l, 'p': proj or [], 'ty': ty}}
+
+    @staticmethod
+    def const_bool(v):
+        return {'k': 'const', 'ty': 'bool', 'val': {'bool': v}}
+
+
+def _closure_defs(raw, raw_by_path):
+    out = {}
+    for blk in raw['blocks']:
+        for s in blk['stmts']:
+            if s['k'] == 'assign' and not s['place']['p'] and s['rv']['k'] == 'aggr' and s['rv'].get('akind') == 'closure' and s['rv'].get('closure') in raw_by_path:
+                l = s['place']['l']
+                out[l] = None if l in out else s['rv']['closure']
+            elif s['k'] == 'assign' and not s['place']['p'] and s['place']['l'] in out:
+                out[s['place']['l']] = None
+    return {l: p for l, p in out.items() if p}
+
+
+def _call_defs(raw):
+    """local -> (block index, terminator) for locals defined exactly once, by a call"""
+    cnt = {}
+    d = {}
+    for bi, blk in enumerate(raw['blocks']):
+        for s in blk['stmts']:
+            if s['k'] == 'assign' and not s['place']['p']:
+                cnt[s['place']['l']] = cnt.get(s['place']['l'], 0) + 1
+        t = blk['term']
+        if t['k'] == 'call' and not t['dest']['p']:
+            cnt[t['dest']['l']] = cnt.get(t['dest']['l'], 0) + 1
+            d[t['dest']['l']] = (bi, t)
+    return {l: v for l, v in d.items() if cnt.get(l) == 1}
+
+
+def _plain_local(op):
+    return op.get('k') in ('move', 'copy') and not op['place']['p']
+
+
+def _fn_path(t):
+    f = t['func']
+    if f.get('k') == 'const' and 'fn' in f:
+        return f['fn']['path']
+    return None
+
+
+def _emit_closure_call(B, raw_by_path, clo_local, clo_path, arg_ops, dest, target, span):
+    """splice a copy of closure `clo_path` called with `arg_ops`; returns the entry block index"""
+    raw = B.raw
+    callee = raw_by_path[clo_path]
+    if len(arg_ops) != callee['arg_count'] - 1:
+        return None
+    lo = len(raw['locals'])
+    raw['locals'].extend(_copy.deepcopy(callee['locals']))
+    for d in callee.get('debug', []):
+        v = d['val']
+        if 'l' in v:
+            raw['debug'].append({'name': d['name'], 'val': _shift_place(v, lo), 'arg': None})
+    env_ty = callee['locals'][1]['ty']
+    clo_ty = raw['locals'][clo_local]['ty']
+    if env_ty.startswith('&mut '):
+        rv = {'k': 'ref', 'mut': True, 'place': B.place(clo_local, clo_ty)}
+    elif env_ty.startswith('&'):
+        rv = {'k': 'ref', 'mut': False, 'place': B.place(clo_local, clo_ty)}
+    else:
+        rv = {'k': 'use', 'op': B.mv(clo_local, clo_ty)}
+    stmts = [B.assign(B.place(lo + 1, env_ty), rv, span)]
+    for i, a in enumerate(arg_ops):
+        stmts.append(B.assign(B.place(lo + 2 + i, callee['locals'][2 + i]['ty']), {'k': 'use', 'op': a}, span))
+    entry = B.block(stmts, None)
+    bo = len(raw['blocks'])
+    for cb in callee['blocks']:
+        raw['blocks'].append(_shift_block(cb, lo, bo, lo, dest, target))
+    raw['blocks'][entry]['term'] = {'k': 'goto', 'target': bo, 'span': span}
+    return entry
+
+
+def _expand_one(raw, raw_by_path, bi, kind, used):
+    blk = raw['blocks'][bi]
+    t = blk['term']
+    span = t.get('span', {})
+    B = _Builder(raw)
+    clos = _closure_defs(raw, raw_by_path)
+    args = t['args']
+    dest, target = t['dest'], t.get('target')
+    if target is None or not args or not _plain_local(args[-1]) or args[-1]['place']['l'] not in clos:
+        return False
+    f_local = args[-1]['place']['l']
+    f_path = clos[f_local]
+    some0 = lambda ty: [{'k': 'downcast', 'variant': 'Some'}, {'k': 'field', 'name': '0', 'idx': 0, 'ty': ty, 'of': 'std::option::Option'}]
+    if kind in ('is_some_and', 'map_or'):
+        if not _plain_local(args[0]):
+            return False
+        o = args[0]['place']['l']
+        oty = args[0]['place'].get('ty', '')
+        item_ty = raw_by_path[f_path]['locals'][2]['ty'] if raw_by_path[f_path]['arg_count'] >= 2 else ''
+        d = B.local('isize')
+        x = B.local(item_ty)
+        some_entry_stub = B.block([B.assign(B.place(x, item_ty), {'k': 'use', 'op': B.mv(o, item_ty, some0(item_ty))}, span)], None)
+        e = _emit_closure_call(B, raw_by_path, f_local, f_path, [B.mv(x, item_ty)], dest, target, span)
+        if e is None:
+            return False
+        raw['blocks'][some_entry_stub]['term'] = {'k': 'goto', 'target': e, 'span': span}
+        none_op = B.const_bool(False) if kind == 'is_some_and' else args[1]
+        nb = B.block([B.assign(dest, {'k': 'use', 'op': none_op}, span)], {'k': 'goto', 'target': target, 'span': span})
+        unr = B.block([], {'k': 'unreachable', 'span': span})
+        blk['stmts'].append(B.assign(B.place(d, 'isize'), {'k': 'discr', 'place': B.place(o, oty), 'variants': [[0, 'None'], [1, 'Some']]}, span))
+        blk['term'] = {'k': 'switch', 'discr': B.mv(d, 'isize'), 'arms': [[0, nb], [1, some_entry_stub]], 'otherwise': unr, 'discr_ty': 'isize', 'span': span}
+        used.add(f_path)
+        return True
+    # iterator consumers -------------------------------------------------------------------------------------
+    if not _plain_local(args[0]):
+        return False
+    if kind == 'try_for_each' and not dest.get('ty', '').startswith('std::result::Result<'):
+        return False
+    cdefs = _call_defs(raw)
+    chain = []
+    src = args[0]['place']['l']
+    dead_calls = []
+    while src in cdefs:
+        cbi, ct = cdefs[src]
+        ak = _ITER_ADAPTORS.get(_fn_path(ct))
+        if ak is None or len(ct['args']) != 2 or not _plain_local(ct['args'][0]) or not _plain_local(ct['args'][1]) \
+                or ct['args'][1]['place']['l'] not in clos or ct.get('target') is None:
+            break
+        chain.append((ak, ct['args'][1]['place']['l'], clos[ct['args'][1]['place']['l']]))
+        dead_calls.append(cbi)
+        src = ct['args'][0]['place']['l']
+    chain.reverse()   # innermost adaptor first
+    src_ty = raw['locals'][src]['ty']
+    # the adaptor constructor calls become plain moves (the adaptor value itself is no longer used)
+    for cbi in dead_calls:
+        ct = raw['blocks'][cbi]['term']
+        raw['blocks'][cbi]['stmts'].append(B.assign(ct['dest'], {'k': 'use', 'op': ct['args'][0]}, ct.get('span', span)))
+        raw['blocks'][cbi]['term'] = {'k': 'goto', 'target': ct['target'], 'span': ct.get('span', span)}
+    first_clo = chain[0][2] if chain else f_path
+    item_ty = raw_by_path[first_clo]['locals'][2]['ty'] if raw_by_path[first_clo]['arg_count'] >= 2 else ''
+    if chain and chain[0][0] == 'filter' and item_ty.startswith('&'):
+        item_ty = item_ty[1:]
+    r = B.local('&mut ' + src_ty)
+    n = B.local('std::option::Option<%s>' % item_ty)
+    d = B.local('isize')
+    x = B.local(item_ty)
+    head = B.block([B.assign(B.place(r, '&mut ' + src_ty), {'k': 'ref', 'mut': True, 'place': B.place(src, src_ty)}, span)], None)
+    head2 = B.block([B.assign(B.place(d, 'isize'), {'k': 'discr', 'place': B.place(n, ''), 'variants': [[0, 'None'], [1, 'Some']]}, span)], None)
+    raw['blocks'][head]['term'] = {
+        'k': 'call', 'span': span, 'snippet': t.get('snippet'),
+        'func': {'k': 'const', 'ty': 'fn', 'fn': {'path': 'std::iter::Iterator::next', 'full': '<%s as std::iter::Iterator>::next' % src_ty, 'args': [src_ty],
+                                                'local': False, 'trait': 'std::iter::Iterator', 'method': 'next',
+                                                'resolved': {'path': '<%s as std::iter::Iterator>::next' % src_ty, 'full': '<%s as std::iter::Iterator>::next' % src_ty,
+                                                             'kind': 'item', 'local': False, 'impl_self': src_ty}}},
+        'args': [B.mv(r, '&mut ' + src_ty)], 'dest': B.place(n, 'std::option::Option<%s>' % item_ty), 'target': head2}
+    unr = B.block([], {'k': 'unreachable', 'span': span})
+    body0 = B.block([B.assign(B.place(x, item_ty), {'k': 'use', 'op': B.mv(n, item_ty, some0(item_ty))}, span)], None)
+    # exit block
+    if kind == 'for_each':
+        exit_rv = {'k': 'aggr', 'akind': 'tuple', 'ops': [], 'fields': []}
+    elif kind == 'try_for_each':
+        u = B.local('()')
+        exit_rv = None
+    elif kind == 'all':
+        exit_rv = {'k': 'use', 'op': B.const_bool(True)}
+    else:
+        exit_rv = {'k': 'use', 'op': B.const_bool(False)}
+    if kind == 'try_for_each':
+        exit_b = B.block([B.assign(B.place(u, '()'), {'k': 'aggr', 'akind': 'tuple', 'ops': [], 'fields': []}, span),
+                          B.assign(dest, {'k': 'aggr', 'akind': 'adt', 'adt': 'std::result::Result', 'adt_full': dest.get('ty', ''), 'variant': 'Ok',
+                                          'fields': ['0'], 'ops': [B.mv(u, '()')]}, span)], {'k': 'goto', 'target': target, 'span': span})
+    else:
+        exit_b = B.block([B.assign(dest, exit_rv, span)], {'k': 'goto', 'target': target, 'span': span})
+    raw['blocks'][head2]['term'] = {'k': 'switch', 'discr': B.mv(d, 'isize'), 'arms': [[0, exit_b], [1, body0]], 'otherwise': unr, 'discr_ty': 'isize', 'span': span}
+    # adaptor chain
+    cur_blk = body0
+    cur_item, cur_ty = x, item_ty
+    for ak, cl_local, cl_path in chain:
+        cal = raw_by_path[cl_path]
+        if ak == 'map':
+            # return type of the closure = type of its local 0
+            yty = cal['locals'][0]['ty']
+            y = B.local(yty)
+            cont = B.block([], None)
+            e = _emit_closure_call(B, raw_by_path, cl_local, cl_path, [B.mv(cur_item, cur_ty)], B.place(y, yty), cont, span)
+            if e is None:
+                return False
+            raw['blocks'][cur_blk]['term'] = {'k': 'goto', 'target': e, 'span': span}
+            cur_blk, cur_item, cur_ty = cont, y, yty
+        else:
+            pr = B.local('&' + cur_ty)
+            pb = B.local('bool')
+            raw['blocks'][cur_blk]['stmts'].append(B.assign(B.place(pr, '&' + cur_ty), {'k': 'ref', 'mut': False, 'place': B.place(cur_item, cur_ty)}, span))
+            test = B.block([], None)
+            cont = B.block([], None)
+            e = _emit_closure_call(B, raw_by_path, cl_local, cl_path, [B.mv(pr, '&' + cur_ty)], B.place(pb, 'bool'), test, span)
+            if e is None:
+                return False
+            raw['blocks'][cur_blk]['term'] = {'k': 'goto', 'target': e, 'span': span}
+            raw['blocks'][test]['term'] = {'k': 'switch', 'discr': B.mv(pb, 'bool'), 'arms': [[0, head]], 'otherwise': cont, 'discr_ty': 'bool', 'span': span}
+            cur_blk = cont
+        used.add(cl_path)
+    # consumer
+    if kind == 'for_each':
+        ut = B.local('()')
+        e = _emit_closure_call(B, raw_by_path, f_local, f_path, [B.mv(cur_item, cur_ty)], B.place(ut, '()'), head, span)
+        if e is None:
+            return False
+        raw['blocks'][cur_blk]['term'] = {'k': 'goto', 'target': e, 'span': span}
+    elif kind == 'try_for_each':
+        rty = dest.get('ty', '')
+        rl = B.local(rty)
+        d2 = B.local('isize')
+        test = B.block([B.assign(B.place(d2, 'isize'), {'k': 'discr', 'place': B.place(rl, rty), 'variants': [[0, 'Ok'], [1, 'Err']]}, span)], None)
+        brk = B.block([B.assign(dest, {'k': 'use', 'op': B.mv(rl, rty)}, span)], {'k': 'goto', 'target': target, 'span': span})
+        e = _emit_closure_call(B, raw_by_path, f_local, f_path, [B.mv(cur_item, cur_ty)], B.place(rl, rty), test, span)
+        if e is None:
+            return False
+        raw['blocks'][test]['term'] = {'k': 'switch', 'discr': B.mv(d2, 'isize'), 'arms': [[0, head], [1, brk]], 'otherwise': unr, 'discr_ty': 'isize', 'span': span}
+        raw['blocks'][cur_blk]['term'] = {'k': 'goto', 'target': e, 'span': span}
+    else:
+        pb = B.local('bool')
+        test = B.block([], None)
+        stop = B.block([B.assign(dest, {'k': 'use', 'op': B.const_bool(kind == 'any')}, span)], {'k': 'goto', 'target': target, 'span': span})
+        e = _emit_closure_call(B, raw_by_path, f_local, f_path, [B.mv(cur_item, cur_ty)], B.place(pb, 'bool'), test, span)
+        if e is None:
+            return False
+        if kind == 'all':
+            raw['blocks'][test]['term'] = {'k': 'switch', 'discr': B.mv(pb, 'bool'), 'arms': [[0, stop]], 'otherwise': head, 'discr_ty': 'bool', 'span': span}
+        else:
+            raw['blocks'][test]['term'] = {'k': 'switch', 'discr': B.mv(pb, 'bool'), 'arms': [[0, head]], 'otherwise': stop, 'discr_ty': 'bool', 'span': span}
+        raw['blocks'][cur_blk]['term'] = {'k': 'goto', 'target': e, 'span': span}
+    blk['term'] = {'k': 'goto', 'target': head, 'span': span}
+    used.add(f_path)
+    return True
+
+
+def expand_combinators(raw_by_path):
+    """returns (new_raw_by_path, closure paths that were spliced into their creators)"""
+    out = {}
+    used = set()
+    for path, raw in raw_by_path.items():
+        cur = raw
+        for _ in range(12):
+            hit = None
+            for bi, blk in enumerate(cur['blocks']):
+                t = blk['term']
+                if not t or t['k'] != 'call' or blk.get('cleanup'):
+                    continue
+                fp = _fn_path(t)
+                kind = _ITER_CONSUMERS.get(fp) or _OPT_COMBINATORS.get(fp)
+                if kind:
+                    hit = (bi, kind)
+                    if cur is raw:
+                        cur = _copy.deepcopy(raw)
+                    snapshot = _copy.deepcopy(cur)
+                    try:
+                        ok = _expand_one(cur, raw_by_path, bi, kind, used)
+                    except (KeyError, IndexError):
+                        ok = False
+                    if ok:
+                        break
+                    cur = snapshot
+                    hit = None
+            if hit is None:
+                break
+        out[path] = cur
+    return out, used
